@@ -1940,3 +1940,119 @@ func reslicedOnTheWay(v ssa.Value) bool {
 	}
 	return visit(v, 0)
 }
+
+// ---------------------------------------------------------------------------
+// C14 / C05: the parsed patch object of the library is immutable
+
+// libraryFileImmutable: (*patch.File).Apply and its helpers never write a
+// field of the shared *patch.File and never hand out the ADDRESS of one (a
+// buffer kept on the File and reused between calls makes one call's result
+// alias the next call's scratch space: seed C05-9). Loading a field (the
+// FileSet pointer, the compiled program) is reading.
+func libraryFileImmutable(r *an.Run, rule string) {
+	r.Rule(rule)
+	f := fn(r, patchP, "File.Apply")
+	if f == nil {
+		return
+	}
+	isFile := func(t types.Type) bool {
+		if p, ok := t.Underlying().(*types.Pointer); ok {
+			t = p.Elem()
+		}
+		return an.IsNamed(t, an.Module+"/patch", "File")
+	}
+	n := 0
+	for _, g := range helperGroup(f, 2) {
+		for _, b := range g.Blocks {
+			for _, in := range b.Instrs {
+				fa, ok := in.(*ssa.FieldAddr)
+				if !ok || !isFile(fa.X.Type()) || fa.Referrers() == nil {
+					continue
+				}
+				n++
+				for _, u := range *fa.Referrers() {
+					switch x := u.(type) {
+					case *ssa.UnOp:
+						if x.Op == token.MUL {
+							continue // a load
+						}
+					case *ssa.DebugRef:
+						continue
+					case *ssa.FieldAddr, *ssa.IndexAddr:
+						// address arithmetic below the field: judged at its own uses (conservatively a hand-out)
+					}
+					key := short(g) + "|File." + fieldNameOf(fa)
+					if st, isStore := u.(*ssa.Store); isStore && st.Addr == ssa.Value(fa) {
+						r.Fail(key+"|write", u.Pos(), "%s writes field %s of the shared *patch.File: a parsed patch is immutable, and applying it must not leave anything behind for the next call", short(g), fieldNameOf(fa))
+						continue
+					}
+					r.Fail(key+"|address", u.Pos(), "%s takes the address of field %s of the shared *patch.File and hands it on (%s): state kept on the File between calls (a reused buffer, a cache) makes one Apply's result depend on, or alias, another's", short(g), fieldNameOf(fa), strings.TrimSpace(u.String()))
+				}
+			}
+		}
+	}
+	if len(r.Failing()) == 0 || n > 0 {
+		r.Pass(short(f)+"|file-fields-only-read", f.Pos(), "%d accesses to fields of the shared *patch.File in Apply and its helpers: all are loads", n)
+	}
+	r.Count("accesses to patch.File fields", n)
+	r.Min("accesses to patch.File fields", 2)
+}
+
+// ---------------------------------------------------------------------------
+// C07: the file that receives the validated bytes starts empty
+
+func c07WrittenFileStartsEmpty(r *an.Run, m *runModel) {
+	r.Rule("R4-the-written-file-holds-exactly-the-validated-bytes")
+	trunc := int64(-1)
+	if pk := r.P.ByP["os"]; pk != nil {
+		if c, ok := pk.Types.Scope().Lookup("O_TRUNC").(*types.Const); ok {
+			trunc, _ = an.ConstIntOf(c.Val())
+		}
+	}
+	excl := int64(-1)
+	if pk := r.P.ByP["os"]; pk != nil {
+		if c, ok := pk.Types.Scope().Lookup("O_EXCL").(*types.Const); ok {
+			excl, _ = an.ConstIntOf(c.Val())
+		}
+	}
+	n := 0
+	for _, s := range sinksOfRun(r, m) {
+		h := an.StaticCallee(s.call)
+		if h == nil || !an.InModule(h) || h.Blocks == nil || h == r.P.Func(mainP, "mainCmd.preview") {
+			continue
+		}
+		for _, g := range helperGroup(h, 2) {
+			for _, c := range an.CallsTo(g, "(*os.File).Write", "(*os.File).WriteString", "(*os.File).WriteAt") {
+				n++
+				recv := c.Common().Args[0]
+				good, why := false, "the file written to is not one this function created or truncated"
+				for v := range sliceAcross(recv) {
+					call, ok := v.(*ssa.Call)
+					if !ok {
+						continue
+					}
+					switch {
+					case an.IsCallTo(call, "os.CreateTemp", "os.Create"):
+						good = true
+					case an.IsCallTo(call, "os.OpenFile"):
+						flags, isc := an.ConstInt(call.Call.Args[1])
+						if isc && (flags&trunc != 0 || flags&excl != 0) {
+							good = true
+						} else {
+							good, why = false, "os.OpenFile without O_TRUNC / O_EXCL: what the file held before stays behind the new bytes when they are shorter"
+						}
+					case an.IsCallTo(call, "os.Open"):
+						good, why = false, "os.Open opens read-only"
+					}
+				}
+				r.Check(good, short(g)+"|written-file-starts-empty", c.Pos(), "%s writes the validated bytes into a file that starts empty (created by os.CreateTemp / os.Create, or opened with O_TRUNC / O_EXCL)%s", short(g), ifNonEmpty(boolStr(!good), ": "+why))
+			}
+			for _, c := range an.CallsTo(g, "os.WriteFile") {
+				n++
+				r.Pass(short(g)+"|written-file-starts-empty|os.WriteFile", c.Pos(), "os.WriteFile truncates before writing")
+			}
+		}
+	}
+	r.Count("file writes in the write arm", n)
+	r.Min("file writes in the write arm", 1)
+}
